@@ -691,7 +691,11 @@ func (m Model) Event(l *LoggerModel, ev EventSpec) ExpEvent {
 	out := ExpEvent{Level: lvl}
 	// WithLevel(Disabled) is never written; below the logger level; below the
 	// global level (TraceLevel during program runs)
-	if lvl == 7 || lvl < l.Level || lvl < -1 || l.Dead {
+	global := -1
+	if m.Set.GlobalLow > 0 {
+		global = -m.Set.GlobalLow
+	}
+	if lvl == 7 || lvl < l.Level || lvl < global || l.Dead {
 		return out
 	}
 	if l.Sampler != nil && !l.Sampler.sample() {
